@@ -5,7 +5,8 @@ recent `max` contiguous blocks kept; capacity; Clean restarts; stateful check = 
 Tie: correspondence streams `incval` (real increment.IncrementValidator on real blocks/transactions) and
 `stateful` (real stateful validator actor over a real ledger that grows by real signed blocks) against drv_kv.
 Search: the harness keeps its own list of the most recent contiguous blocks and compares every Verify /
-BlockRange answer with it; stateful verdicts are compared with ledger.IsContainTransaction.
+BlockRange answer with it; stateful verdicts are compared with ledger.IsContainTransaction, including lookups that fail
+because the stores were closed under the running validator (verdict must then be unknown, never ok).
 """
 
 
